@@ -205,6 +205,7 @@ def register(reg):
     register_metarize(reg)
     register_metarize2(reg)
     register_cleanup(reg)
+    register_minsep(reg)
 
 
 # =============================================================================================
@@ -606,4 +607,45 @@ def register_cleanup(reg):
                   'flag_never_raised': lambda result, self, data: Not(lift(self.fields['_clouds_above_msa_buffer'])
                                                                     if isinstance(self.fields['_clouds_above_msa_buffer'], bool)
                                                                     else self.fields['_clouds_above_msa_buffer'].t)},
+    ))
+
+
+# =============================================================================================
+# _get_min_sep_for_height (C06, C08)
+# =============================================================================================
+
+class ChunkForMinSep(Spec):
+    def make(self, name, ctx):
+        lims = ListOf('float', elem_ty='float').make('MIN_SEP_LIMS', ctx)
+        vals = ListOf('float', elem_ty='float').make('MIN_SEP_VALS', ctx)
+        # documented meaning of the parameters: ascending limits (lengths are checked by the code itself)
+        ctx.assume(Forall(0, lims.len, lambda i, j: _rv(lims[i]) <= _rv(lims[j]), arity=2, name='so'))
+        return SChunk(CHUNK, {'_prms': {'MIN_SEP_LIMS': lims, 'MIN_SEP_VALS': vals}}, {})
+
+    def describe(self):
+        return 'chunk with symbolic MIN_SEP_LIMS (ascending) / MIN_SEP_VALS lists'
+
+
+def _minsep_post(result, self, height):
+    lims, vals = self.fields['_prms']['MIN_SEP_LIMS'], self.fields['_prms']['MIN_SEP_VALS']
+    calls = smt.CURRENT_CTX.ghost.get('searchsorted_calls', [])
+    if len(calls) != 1:
+        return {'one_lookup': False}
+    _, _, k = calls[0]
+    h = _rv(height)
+    return {
+        # the value of the bin the height falls into: all limits below k are < height, all from k on are >= height
+        'bin': And(k >= 0, k <= lims.len, Forall(0, lims.len, lambda i: And(Implies(i < k, _rv(lims[i]) < h), Implies(i >= k, _rv(lims[i]) >= h)))),
+        'value': And(_rv(result) == _rv(vals[k]), _isnan(result) == _isnan(vals[k])),
+    }
+
+
+def register_minsep(reg):
+    reg.add(Contract(
+        f'{CHUNK}._get_min_sep_for_height', properties=('C06', 'C08'),
+        params={'self': ChunkForMinSep(), 'height': Float(nan=False)},
+        result=Float(nan=False),
+        raises={'AmpycloudError': lambda self, height: self.fields['_prms']['MIN_SEP_LIMS'].len != self.fields['_prms']['MIN_SEP_VALS'].len - 1},
+        ensures=_minsep_post,
+        canaries={'always_first_value': lambda result, self, height: _rv(result) == _rv(self.fields['_prms']['MIN_SEP_VALS'][0])},
     ))
